@@ -139,6 +139,7 @@ def run(ctx, rep):
         rep.fail("A", "C06|A|anchor-missing|resolve_types-closure", cfg.where(rtf), "resolve_types must have one callback closure")
     rep.rule("E", "the 'used' set relies on name matching: C05 rule E re-evaluated (an import must only be matched exactly or at a dot boundary)")
     c05.matching_rules(ctx, rep, "C06")
+    c05.builtin_tables(ctx, rep, "C06")
     # ---- F
     fold_rule(rep, facts, "validation::check_imports", None, {"diagnostics": Opaque("diagnostics")}, "import", "C06", "imports", False)
     fold_rule(rep, facts, "validation::check_declared_parcelables", None, {"diagnostics": Opaque("diagnostics"), "imports": sym_ref("imports")}, "declared_parcelable", "C06", "forward declarations", True)
@@ -212,5 +213,7 @@ def run(ctx, rep):
                   sample={"declaration_used": used, "diagnostics": [dsum(d) for d in diags]})
     rep.floor("L", "declaration classification paths", len(body), 2)
     rep.not_decided += ["the contents of `defined` / `resolved` as string sets (C05 (e))", "text of the messages"]
+    import common_g
+    rep.floor("IN", "grammar actions feeding this rule", common_g.emit_inputs(ctx, rep, "C06"), 5)
     rep.assumptions += ["TB-1 rustc MIR", "TB-4 tabulator", "TB-3 HashMap entry / contains semantics; iteration yields every stored entry once",
                         "the fold and the loops carry no state between elements besides the map and the append-only diagnostics"]
